@@ -23,6 +23,18 @@ claimed = {
          "Every sequence of depth <=2 (thorough: <=3 on a reduced alphabet) over a 115-command alphabet of the 13 list commands from 11 initial states (lists with adjacent duplicates, single-element and emptied lists, lists with deadlines, wrong-typed keys), plus broad and dense seeded random programs (indices -8..8, counts, binary and 10 KB elements, clock advances); replies must be allowed by the reference sequence and the dump must equal it after every step.",
          "Trusts the verif-tagged dump, the virtual clock and the reference model (set-valued where statement and docs are silent: multi-element push order, LMOVE reply, LPUSHX on absent key).",
          "DESIGN.md §3 C14-C17"),
+ "C03": ("exploration", "self-differential monitoring of snapshot round trips (dump at the snapshot instant vs dump of a fresh instance restored from the directory) plus a tick-counting monitor on the automatic trigger",
+         "Seeded write histories over all value types, databases {0,1,3,12} and relative/absolute deadlines; snapshot by the synchronous engine call and by the asynchronous SAVE command (completion observed through the snap.end hook); further writes; restore into a fresh instance after clock moves of 0 ms ... 100 min; the whole canonical dump must equal the dump at the snapshot instant minus keys whose deadline passed, LASTSAVE must equal the snapshot time, over up to three snapshot/restart generations. Automatic trigger: thresholds {1,5,50} x {N, N+1, 2N+3} writes with a 25 ms ticker; the verdict is on ticker fires observed through a hook (>=4 fires and no snapshot = violation), never on elapsed time.",
+         "Trusts the verif-tagged dump and virtual clock; the automatic-trigger lane uses a real ticker with a 20 s watchdog whose firing is inconclusive. Snapshots under concurrent writers are exercised by the C05 stress lane, not here.",
+         "DESIGN.md §3 C03"),
+ "C09": ("fault_enumeration", "self-differential monitoring over crash images of log rewrites (failpoint images, torn preamble / torn log header, parked-rewrite x writer interleavings) restored and compared with dumps recorded after each acknowledged command",
+         "Seeded write workloads (all value types, databases, TCP and embedded callers, three sync policies) with REWRITEAOF at every position of short workloads, at random positions of long ones, first on a fresh log and twice in a row; an image at every hit of every failpoint of the rewrite (state copy, preamble truncate/write/sync, log truncate/header/sync) and of the write path; the preamble cut at byte offsets and the freshly truncated log header cut at every byte; each image restored and compared with the prefix state the statement allows; recovered directories written to, stopped and restarted again. Concurrent lane: the rewrite is parked at each of its failpoints while a non-idempotent writer runs to acknowledgement; after a restart the dataset must contain the write exactly once.",
+         "Process death = directory image at the failpoint. Three genuine defects are listed (C09-KF1 in-place preamble, C09-KF2 non-atomic preamble/log switch, C09-KF3 writes during the rewrite window); images inside exactly those windows that fail in exactly that way are attributed to them, everything else is reported.",
+         "DESIGN.md §3 C09"),
+ "C16": ("exploration", "lock-step differential monitoring of the set handlers against executable reference finite sets (replies + whole-store dump after every step), with a destination-mutation lane for aliasing",
+         "Every sequence of depth <=2 (thorough: <=3 on a reduced alphabet) over an 80-command alphabet of the 16 set commands from 9 initial states, an expired-operands lane, seeded random programs (duplicates, 1..n operands, repeated and missing keys, destination equal to a source, counts/limits at the boundaries), and an alias lane that follows every ...STORE / SMOVE with a mutation of the destination so that shared structure shows up in the whole-store dump.",
+         "Trusts the verif-tagged dump, virtual clock and reference model (set-valued where silent). SDIFF/SDIFFSTORE with an absent base key is listed finding C16-KF1 (pinned by the unit tests) and filtered.",
+         "DESIGN.md §3 C14-C17"),
  "C01": ("exploration", "lock-step differential monitoring of the real handlers against an executable reference typed map (replies + whole-store dump after every step)",
          "Every sequence of depth <=2 (thorough: <=3) over an 80-command alphabet from 8 initial states, plus seeded random programs of 40-80 steps over binary/numeric/huge values, run on fresh instances; each step's strict-parsed reply must be allowed by the reference model and the side-effect-free dump of the store must equal the model state. Held on what was explored, not a proof.",
          "Trusts the verif-tagged dump (reads the store under its own lock), the injected virtual clock, and the reference model in harness/model (set-valued where statement and docs are silent). Inputs matching a listed known finding are filtered out of exploration and replayed by a witness lane.",
